@@ -12,6 +12,7 @@ Open Scope Z_scope.
    reference sorted map driven by the same calls *)
 Theorem C01_refines : forall (vsame iand_rebuilds : bool) (ml mi : nat) (calls : list call),
   (1 <= ml)%nat -> (2 <= mi)%nat ->
+  (iand_rebuilds = true -> set_calls_ok calls = true) ->   (* &= is a set operation: see TreeRun.v *)
   let '(s, outs) := run vsame iand_rebuilds ml mi init calls in
   let '(m, outs') := Spec.run [] calls in
   outs = outs' /\ contents Z (t_tree s) = m.
